@@ -117,64 +117,128 @@ func ValidVector(t *rapid.T, vi int) Valid {
 // pools for mutation -------------------------------------------------------
 
 var allAbvs, allVals []string
-var headers = []string{"", "CVSS:3.0/", "CVSS:3.1/", "CVSS:4.0/", "CVSS:2.0/", "CVSS:3.0", "CVSS:3.1", "CVSS:4.0", "cvss:3.1/", "cvss:4.0/", "CVSS:3./", "CVSS:3/", "CVSS:4/", "CVSS:4.00/", "CVSS:3.10/", "CVSS:3.1//", "CVSS:4.0//", "CVSS:3.1/CVSS:3.1/", "CVSS:4.0/CVSS:4.0/", " CVSS:3.1/", "CVSS:4.1/", "CVSS:3.2/", "CVSS:5.0/", "CVSS:4.0:", "CVSS;3.1/"}
+
+// coreAbvs / coreVals: the real tokens and their case variants plus a few classic malformed ones; the
+// random mutation operators draw half of their replacements from these so that "another metric's
+// legal value" stays frequent, the other half from the complete pools with all disguises.
+var coreAbvs, coreVals []string
+var headers = []string{"", "CVSS:3.0/", "CVSS:3.1/", "CVSS:4.0/", "CVSS:2.0/", "CVSS:3.0", "CVSS:3.1", "CVSS:4.0", "cvss:3.1/", "cvss:4.0/", "cvss:3.0/", "Cvss:3.1/", "CVSS:3./", "CVSS:3/", "CVSS:4/", "CVSS:4.00/", "CVSS:3.10/", "CVSS:3.1//", "CVSS:4.0//", "CVSS:3.1/CVSS:3.1/", "CVSS:4.0/CVSS:4.0/", " CVSS:3.1/", "CVSS:4.1/", "CVSS:3.2/", "CVSS:5.0/", "CVSS:4.0:", "CVSS;3.1/"}
 
 const alphabet = "/:.AaCcDdEeFfGgHhIiLlMmNnOoPpRrSsTtUuVvWwXxYy0134 \t\n\x00\xff"
 
+// disguises of a real token t: strings a sloppy comparison could take for t -
+// NUL bytes around it, junk followed by NUL padding up to 4 and 8 bytes (a key packed into a 32- or
+// 64-bit integer loses what is shifted out), the high bit set on the first byte, the token doubled,
+// separators glued on, 256 more bytes (a length kept in 8 bits), and one character replaced by a
+// multi-byte character whose code point ends in the same byte (a rune truncated to a byte).
+func disguises(a string) []string {
+	if a == "" {
+		return nil
+	}
+	pad := func(n int) string {
+		if n < len(a) {
+			return a
+		}
+		return "Q" + strings.Repeat("\x00", n-len(a)) + a
+	}
+	out := []string{"\x00" + a, "\x00\x00" + a, a + "\x00", a + "\x00\x00", pad(4), pad(8), string([]byte{a[0] | 0x80}) + a[1:], a + a, a + "/", "/" + a, a + ":", ":" + a,
+		a + strings.Repeat("\x00", 256), a + strings.Repeat("Q", 256), a + strings.Repeat(a, 256/len(a))}
+	for _, pos := range []int{0, len(a) - 1} {
+		for _, d := range []rune{0x100, 0x400, 0x2100, 0x10000} {
+			out = append(out, a[:pos]+string(rune(a[pos])+d)+a[pos+1:])
+		}
+		if pos == len(a)-1 {
+			break
+		}
+	}
+	return out
+}
+
 func init() {
 	seenA, seenV := map[string]bool{}, map[string]bool{}
+	addA := func(x string) {
+		if !seenA[x] {
+			seenA[x] = true
+			allAbvs = append(allAbvs, x)
+		}
+	}
+	addV := func(x string) {
+		if !seenV[x] {
+			seenV[x] = true
+			allVals = append(allVals, x)
+		}
+	}
 	for _, v := range spec.Versions {
 		for _, m := range v.Metrics {
 			for _, x := range []string{m.Abv, strings.ToLower(m.Abv), strings.ToUpper(m.Abv)} {
-				if !seenA[x] {
-					seenA[x] = true
-					allAbvs = append(allAbvs, x)
-				}
+				addA(x)
 			}
 			for _, val := range m.Vals {
 				for _, x := range []string{val, strings.ToLower(val), strings.ToUpper(val)} {
-					if !seenV[x] {
-						seenV[x] = true
-						allVals = append(allVals, x)
-					}
+					addV(x)
 				}
 			}
 		}
 	}
-	// byte-level disguises of every real abbreviation: leading / trailing NUL bytes, junk followed by
-	// NUL padding up to 4 and 8 bytes (a key packed into a 32- or 64-bit integer loses what is shifted
-	// out), the high bit set on the first byte, the abbreviation doubled
+	for _, x := range []string{"", "ZZ", "A V", "AV ", " AV", "M", "MA:", "AVX", "CVSS", "é"} {
+		addA(x)
+	}
+	for _, x := range []string{"", " ", "NN", "N ", " N", "ND ", "Q", "0", "Né", "N/", "CLEAR", "clear", "Cle", "Reds"} {
+		addV(x)
+	}
+	coreAbvs, coreVals = append([]string{}, allAbvs...), append([]string{}, allVals...)
 	seenReal := map[string]bool{}
 	for _, v := range spec.Versions {
 		for _, m := range v.Metrics {
-			if seenReal[m.Abv] {
-				continue
-			}
-			seenReal[m.Abv] = true
-			a := m.Abv
-			pad := func(n int) string {
-				if n < len(a) {
-					return a
+			if !seenReal["A"+m.Abv] {
+				seenReal["A"+m.Abv] = true
+				for _, x := range disguises(m.Abv) {
+					addA(x)
 				}
-				return "Q" + strings.Repeat("\x00", n-len(a)) + a
-			}
-			for _, x := range []string{"\x00" + a, "\x00\x00" + a, a + "\x00", pad(4), pad(8), string([]byte{a[0] | 0x80}) + a[1:], a + a, a + "/", "/" + a, a + ":"} {
-				if !seenA[x] {
-					seenA[x] = true
-					allAbvs = append(allAbvs, x)
+				// the Modified prefix put on / taken off (a Set that strips "M" and dispatches on the base name)
+				addA("M" + m.Abv)
+				addA("MM" + m.Abv)
+				if strings.HasPrefix(m.Abv, "M") && len(m.Abv) > 1 {
+					addA(m.Abv[1:])
 				}
+			}
+			for _, val := range m.Vals {
+				if !seenReal["V"+val] {
+					seenReal["V"+val] = true
+					for _, x := range disguises(val) {
+						addV(x)
+					}
+				}
+			}
+			// the value list itself offered as a value: neighbours and the whole list joined by a separator
+			// (a table kept as one delimited string and searched by substring)
+			for _, sep := range []string{"|", ",", " ", ";", "", "\x00", "+", "\n"} {
+				for i := 0; i+1 < len(m.Vals); i++ {
+					addV(m.Vals[i] + sep + m.Vals[i+1])
+				}
+				addV(strings.Join(m.Vals, sep))
+				addV(sep + m.Vals[0])
+				addV(m.Vals[len(m.Vals)-1] + sep)
 			}
 		}
 	}
-	allAbvs = append(allAbvs, "", "ZZ", "A V", "AV ", " AV", "M", "MA:", "AVX", "CVSS", "é")
-	allVals = append(allVals, "", " ", "NN", "N ", " N", "ND ", "Q", "0", "Né", "N/", "CLEAR", "clear", "Cle", "Reds")
 	// long names of the values in the specification texts and calculators: the most
 	// plausible strings for a widened value list to accept
-	allVals = append(allVals, "HIGH", "LOW", "MEDIUM", "NONE", "CRITICAL", "High", "Low", "Medium", "None", "NETWORK", "ADJACENT", "ADJACENT_NETWORK", "LOCAL", "PHYSICAL",
+	for _, x := range []string{"HIGH", "LOW", "MEDIUM", "NONE", "CRITICAL", "High", "Low", "Medium", "None", "NETWORK", "ADJACENT", "ADJACENT_NETWORK", "LOCAL", "PHYSICAL",
 		"REQUIRED", "CHANGED", "UNCHANGED", "NOT_DEFINED", "NotDefined", "PROOF_OF_CONCEPT", "FUNCTIONAL", "UNPROVEN", "UNREPORTED", "OFFICIAL_FIX", "TEMPORARY_FIX",
 		"WORKAROUND", "UNAVAILABLE", "UNKNOWN", "REASONABLE", "UNCONFIRMED", "UNCORROBORATED", "CONFIRMED", "ATTACKED", "SAFETY", "Safety", "PRESENT", "NEGLIGIBLE",
 		"DIFFUSE", "CONCENTRATED", "AUTOMATIC", "USER", "IRRECOVERABLE", "PARTIAL", "COMPLETE", "SINGLE", "MULTIPLE", "PASSIVE", "ACTIVE", "YES", "NO", "WHITE", "White",
-		"LOW_MEDIUM", "MEDIUM_HIGH")
+		"LOW_MEDIUM", "MEDIUM_HIGH"} {
+		addV(x)
+	}
+}
+
+// poolPick draws from the core pool half of the time and from the complete pool otherwise.
+func poolPick(t *rapid.T, label string, core, all []string) string {
+	if rapid.IntRange(0, 1).Draw(t, label+"-pool") == 0 {
+		return pick(t, label, core)
+	}
+	return pick(t, label, all)
 }
 
 // AllAbvs / AllVals expose the pools (C09).
@@ -306,10 +370,10 @@ func apply(t *rapid.T, vi int, s string, op string) string {
 		x.elems = append(append(append([]string{}, rest[:j]...), el), rest[j:]...)
 	case "abv-replace":
 		_, val, _ := strings.Cut(x.elems[i], ":")
-		x.elems[i] = pick(t, "abv", allAbvs) + ":" + val
+		x.elems[i] = poolPick(t, "abv", coreAbvs, allAbvs) + ":" + val
 	case "val-replace":
 		abv, _, _ := strings.Cut(x.elems[i], ":")
-		x.elems[i] = abv + ":" + pick(t, "val", allVals)
+		x.elems[i] = abv + ":" + poolPick(t, "val", coreVals, allVals)
 	case "colon-shape":
 		abv, val, _ := strings.Cut(x.elems[i], ":")
 		x.elems[i] = []string{abv, abv + ":", ":" + val, abv + "::" + val, abv + ":" + val + ":" + val, abv + val, abv + ";" + val, abv + ": " + val, abv + " :" + val}[rapid.IntRange(0, 8).Draw(t, "shape")]
@@ -555,6 +619,31 @@ func OneEditNeighbourhood(vi int, s string) []string {
 		out = append(out, w[0]+s+w[1])
 		if x.header != "" { // decoration between header and body too
 			out = append(out, x.header+w[0]+strings.TrimPrefix(s, x.header)+w[1])
+		}
+	}
+	return out
+}
+
+// PoolSubstitutions enumerates s with, at every element in turn, the value replaced by every pooled
+// value and the abbreviation by every pooled abbreviation (real tokens of all versions, case variants
+// and all disguises).
+func PoolSubstitutions(vi int, s string) []string {
+	x := split(vi, s)
+	var out []string
+	for i, el := range x.elems {
+		abv, val, _ := strings.Cut(el, ":")
+		e := append([]string{}, x.elems...)
+		for _, v := range allVals {
+			if v != val {
+				e[i] = abv + ":" + v
+				out = append(out, vec{x.header, e}.join())
+			}
+		}
+		for _, a := range allAbvs {
+			if a != abv {
+				e[i] = a + ":" + val
+				out = append(out, vec{x.header, e}.join())
+			}
 		}
 	}
 	return out
